@@ -2324,6 +2324,10 @@ fn foreach_init(xs: &mut State) -> Xresult {
         Cell::Vector(x) => x.len(),
         other => return Err(Xerr::type_not_supported(other.clone())),
     };
+    if limit == 0 {
+        // the body, whose first instruction takes the collection off the stack, is skipped
+        xs.pop_data()?;
+    }
     xs.push_data(Cell::from(limit))?;
     xs.push_data(Cell::from(0))
 }
